@@ -139,11 +139,19 @@ func (e *connEnd) Write(p []byte) (int, error) {
 	if s.sndWindow > 0 && e.inst != nil && e.side == 'b' && !e.c.hidden {
 		// (the leader's log streamer starts its connection's reader goroutine right before it
 		// writes and shares no mutex with it: it may block before that reader has parked)
-		streamer := false
-		if pe.inflightN >= s.sndWindow && e.readWaiting == 0 {
-			streamer = roleOfCaller() == "liveaof"
+		streamer, exempt := false, false
+		if pe.inflightN >= s.sndWindow {
+			switch roleOfCaller() {
+			case "liveaof":
+				streamer = true
+			case "pubq":
+				// the forwarder of published messages shares the replication connection with
+				// the log streamer; two writers blocked on one window would be woken together
+				// and the same one would always win: its (small) writes are not held back
+				exempt = true
+			}
 		}
-		for pe.inflightN >= s.sndWindow && ((e.readWaiting > 0 && len(e.rbuf) == 0) || streamer) && !e.eofDelivered &&
+		for !exempt && pe.inflightN >= s.sndWindow && ((e.readWaiting > 0 && len(e.rbuf) == 0) || streamer) && !e.eofDelivered &&
 			!e.closed && !e.reset && !pe.closed && !pe.reset {
 			s.stats["net.writes_blocked_on_window"]++
 			e.wblocked++
